@@ -1279,6 +1279,16 @@ M('C18', 'DMRGEngine.is_converged tests emptiness with `not` (twin)', 'tenpy/alg
   "        if len(self.sweep_stats['E']) == 0:\n", "        if not self.sweep_stats['Delta_E']:\n",
   None, expect='silent')
 
+M('C03', 'original defect: MPO.sort_legcharges stores into IdL/IdR lists shared with a shallow copy', 'tenpy/networks/mpo.py',
+  "        self.IdL = list(self.IdL)\n        self.IdR = list(self.IdR)\n", "",
+  'COPY-mixed-update')
+M('C03', 'MPO.sort_legcharges only refreshes IdL (IdR still shared)', 'tenpy/networks/mpo.py',
+  "        self.IdL = list(self.IdL)\n        self.IdR = list(self.IdR)\n", "        self.IdL = list(self.IdL)\n",
+  'COPY-mixed-update')
+M('C03', 'MPO.sort_legcharges refreshes IdL/IdR by slicing (twin)', 'tenpy/networks/mpo.py',
+  "        self.IdL = list(self.IdL)\n        self.IdR = list(self.IdR)\n", "        self.IdL = self.IdL[:]\n        self.IdR = self.IdR[:]\n",
+  None, expect='silent')
+
 # ---------------------------------------------------------------- C16 / C19
 M('C16', 'GMRES restart: relative residual norm used for normalisation (round-3 seed b)', KRY,
   """        self.total_error.append([npc.norm(self.rs[-1]) / self.b_norm])
